@@ -17,6 +17,9 @@ package deviceshare
 //   7                                               Device CR deleted (cache invalidated)
 //   8 pod n (type minor v0 v1 v2){n}                informer update: recorded annotation -> new annotation
 //   9 pod                                           informer update: pod turned Succeeded
+//  10 pod koordgpu core ratio shared nvidia rdma fpga n (victim pod){n}
+//                                                   preemption dry-run: PreFilter, RemovePod for every victim,
+//                                                   Filter; only the verdict is observed, nothing is committed
 // types: 0 gpu (slots gpu-core, gpu-memory-ratio, gpu-memory), 1 rdma (slot rdma), 2 fpga (slot fpga);
 // a slot value -1 means "key absent".
 // observable = per op: code [allocations] summary   (see vtC07Summary)
@@ -181,6 +184,22 @@ func vtC07DecodeAllocs(in []int64, pos *int) apiext.DeviceAllocations {
 	return allocs
 }
 
+var vtC07ReqNames = []corev1.ResourceName{apiext.ResourceGPU, apiext.ResourceGPUCore, apiext.ResourceGPUMemoryRatio,
+	apiext.ResourceGPUShared, apiext.ResourceNvidiaGPU, apiext.ResourceRDMA, apiext.ResourceFPGA}
+
+func vtC07ReqPod(id int64, req []int64) *corev1.Pod {
+	pod := vtC07Pod(id, nil)
+	pod.Spec.NodeName = ""
+	rl := corev1.ResourceList{}
+	for i, name := range vtC07ReqNames {
+		if req[i] != 0 {
+			rl[name] = *resource.NewQuantity(req[i], resource.DecimalSI)
+		}
+	}
+	pod.Spec.Containers = []corev1.Container{{Name: "c", Resources: corev1.ResourceRequirements{Requests: rl, Limits: rl}}}
+	return pod
+}
+
 func vtC07StatusCode(s *fwktype.Status) int64 {
 	switch s.Code() {
 	case fwktype.Success:
@@ -248,17 +267,7 @@ func vtC07Exec(in []int64) []int64 {
 				obs = append(obs, -1)
 				break
 			}
-			pod := vtC07Pod(id, nil)
-			pod.Spec.NodeName = ""
-			names := []corev1.ResourceName{apiext.ResourceGPU, apiext.ResourceGPUCore, apiext.ResourceGPUMemoryRatio,
-				apiext.ResourceGPUShared, apiext.ResourceNvidiaGPU, apiext.ResourceRDMA, apiext.ResourceFPGA}
-			rl := corev1.ResourceList{}
-			for i, name := range names {
-				if req[i] != 0 {
-					rl[name] = *resource.NewQuantity(req[i], resource.DecimalSI)
-				}
-			}
-			pod.Spec.Containers = []corev1.Container{{Name: "c", Resources: corev1.ResourceRequirements{Requests: rl, Limits: rl}}}
+			pod := vtC07ReqPod(id, req)
 			cs := framework.NewCycleState()
 			ctx := context.TODO()
 			_, st := pl.PreFilter(ctx, cs, pod, nil)
@@ -360,6 +369,26 @@ func vtC07Exec(in []int64) []int64 {
 			last[id] = r.allocs
 			delete(live, id)
 			obs = append(obs, 0)
+		case 10:
+			id := in[pos]
+			req := in[pos+1 : pos+8]
+			nv := int(in[pos+8])
+			victims := in[pos+9 : pos+9+nv]
+			pos += 9 + nv
+			pod := vtC07ReqPod(id, req)
+			cs := framework.NewCycleState()
+			ctx := context.TODO()
+			_, st := pl.PreFilter(ctx, cs, pod, nil)
+			if st.IsSuccess() {
+				for _, v := range victims {
+					pi, _ := framework.NewPodInfo(vtC07Pod(v, nil))
+					if rs := pl.PreFilterExtensions().RemovePod(ctx, cs, pod, pi, vtC07NodeInfo); !rs.IsSuccess() {
+						panic("RemovePod failed")
+					}
+				}
+				st = pl.Filter(ctx, cs, pod, vtC07NodeInfo)
+			}
+			obs = append(obs, vtC07StatusCode(st))
 		default:
 			panic("bad op")
 		}
@@ -680,16 +709,36 @@ func vtC07Gen(r *rand.Rand, i int) (string, []int64) {
 			ops = append(ops, g.refreshOp())
 		case k < 89:
 			ops = append(ops, []int64{7})
-		case k < 94:
+		case k < 92:
 			if g.style == "plain" {
 				ops = append(ops, g.scheduleOp())
 				break
 			}
 			ops = append(ops, append([]int64{8, g.somePod()}, g.allocList()...))
-		default:
+		case k < 94:
 			p := g.somePod()
 			g.drop(p)
 			ops = append(ops, []int64{9, p})
+		default:
+			o := g.scheduleOp()
+			g.tried = g.tried[:len(g.tried)-1] // nothing is bound by a dry-run
+			o[0] = 10
+			nv := r.Intn(3)
+			if len(g.tried) == 0 {
+				nv = 0
+			}
+			seen := map[int64]bool{}
+			var vs []int64
+			for j := 0; j < nv; j++ {
+				v := g.somePod()
+				if !seen[v] {
+					seen[v] = true
+					vs = append(vs, v)
+				}
+			}
+			o = append(o, int64(len(vs)))
+			o = append(o, vs...)
+			ops = append(ops, o)
 		}
 	}
 	in := []int64{int64(len(ops))}
